@@ -151,4 +151,47 @@ func init() {
 	mutant(&Mutant{Name: "c03-table-part-state-in-one-boolean", Property: "C03", File: "html/html.go",
 		Old: "\t\t\t} else if t.Hash == Colgroup {\n\t\t\t\tinColgroup = t.TokenType == html.StartTagToken", New: "\t\t\t} else if t.Hash == Colgroup || t.Hash == Tbody {\n\t\t\t\tinColgroup = t.TokenType == html.StartTagToken",
 		Rule: "R03.22", Construct: "state of an open table part is not a single boolean"})
+	mutant(&Mutant{Name: "c04-exponent-number-handed-back-unminified", Property: "C04", File: "css/css.go",
+		Old: "\tif i := bytes.IndexByte(num, 'e'); i != -1 {\n\t\treturn c.decimalExponent(num, i)\n", New: "\tif i := bytes.IndexByte(num, 'e'); i != -1 {\n\t\treturn num\n",
+		Rule: "R04.28", Construct: "no number is handed back unminified"})
+	mutant(&Mutant{Name: "c16-line-separator-escape-decoded", Property: "C16", File: "js/util.go",
+		Old: "\t\t\t\tif (num == 0x2028 || num == 0x2029) && quote != '`' {\n\t\t\t\t\t// keep the escape, a line or paragraph separator ends a string literal before ES2019\n\t\t\t\t\ti++\n\t\t\t\t\tcontinue\n\t\t\t\t}\n", New: "",
+		Rule: "R16.9", Construct: "not decoded into a raw line or paragraph separator"})
+	mutant(&Mutant{Name: "c09-raw-comment-start-before-script-left-alone", Property: "C09", File: "js/util.go",
+		Old: "} else if isScriptEndTag(b[i+1:]) || isScriptMarkup(b[i+1:]) && bytes.Contains(bytes.ToLower(b[i+4:]), []byte(\"<script\")) {", New: "} else if isScriptEndTag(b[i+1:]) {",
+		More: [][2]string{{"\t\t\tif b[i+1] == '\\\\' && isScriptMarkup(b[i+2:]) {\n\t\t\t\ti++ // keep the escape", "\t\t\tif b[i+1] == '\\\\' && isScriptEndTag(b[i+2:]) {\n\t\t\t\ti++ // keep the escape"}},
+		Rule: "R09.20", Construct: "raw < escape not decoded into the `<` of `<!--`"})
+	mutant(&Mutant{Name: "c01-builtin-test-on-the-unresolved-use", Property: "C01", File: "js/js.go",
+		Old: "if v, ok := expr.X.(*js.Var); ok && unlinkVar(v).Decl == js.NoDecl && !spread {", New: "if v, ok := expr.X.(*js.Var); ok && v.Decl == js.NoDecl && !spread {",
+		Rule: "R01.51", Construct: "on the linked variable"})
+	mutant(&Mutant{Name: "c02-builtin-test-on-the-unresolved-use", Property: "C02", File: "js/js.go",
+		Old: "if v, ok := dot.X.(*js.Var); ok && unlinkVar(v).Decl == js.NoDecl && bytes.Equal(v.Data, MathBytes) {", New: "if v, ok := dot.X.(*js.Var); ok && v.Decl == js.NoDecl && bytes.Equal(v.Data, MathBytes) {",
+		Rule: "R02.15", Construct: "on the linked variable"})
+	mutant(&Mutant{Name: "c01-used-lone-let-dropped", Property: "C01", File: "js/stmtlist.go",
+		Old: "if v, ok := item.Binding.(*js.Var); !ok && item.Default != nil || ok && 1 < v.Uses {", New: "if _, ok := item.Binding.(*js.Var); !ok && item.Default != nil {",
+		Rule: "R01.50", Construct: "only when the variable is unused"})
+	mutant(&Mutant{Name: "c03-colgroup-end-tag-dropped-before-col", Property: "C03", File: "html/html.go",
+		Old: "keepTag = next.TokenType == html.StartTagToken && (next.Hash == Colgroup || next.Hash == Col)", New: "keepTag = next.TokenType == html.StartTagToken && next.Hash == Colgroup",
+		Rule: "R03.23", Construct: "in front of colgroup and col"})
+	mutant(&Mutant{Name: "c19-named-hidden-directory-skipped", Property: "C19", File: "cmd/minify/main.go",
+		Old: "!hidden && d.Name()[0] == '.' && input != dir {", New: "!hidden && d.Name()[0] == '.' {",
+		More: [][2]string{{"\t\t\tdir := input // named on the command line, minified also when its name is hidden\n", ""}},
+		Rule: "R19.25", Construct: "spares the directory that was named"})
+	mutant(&Mutant{Name: "c01-var-initialiser-undefined-dropped", Property: "C01", File: "js/js.go",
+		Old: "\t\t\tm.minifyBindingElement(item)\n\t\t}\n\t}\n", New: "\t\t\tif _, ok := item.Binding.(*js.Var); ok && decl.TokenType != js.ConstToken && isUndefined(item.Default) {\n\t\t\t\titem.Default = nil\n\t\t\t}\n\t\t\tm.minifyBindingElement(item)\n\t\t}\n\t}\n",
+		Rule: "R01.53", Construct: "initialiser discarded"})
+	mutant(&Mutant{Name: "c12-read-error-tested-before-the-data", Property: "C12", File: "minify.go",
+		Old: "// Writer wraps a Writer interface and minifies the stream.\n", New: "// ReadFrom copies r into the minifier.\nfunc (z *writer) ReadFrom(r io.Reader) (int64, error) {\n\tbuf := make([]byte, 32*1024)\n\tvar total int64\n\tfor {\n\t\tn, err := r.Read(buf)\n\t\tif err == io.EOF {\n\t\t\treturn total, nil\n\t\t} else if err != nil {\n\t\t\treturn total, err\n\t\t}\n\t\tn, err = z.WriteCloser.Write(buf[:n])\n\t\ttotal += int64(n)\n\t\tif err != nil {\n\t\t\treturn total, err\n\t\t}\n\t}\n}\n\n// Writer wraps a Writer interface and minifies the stream.\n",
+		Rule: "R12.10", Construct: "the byte count is used before the error decides"})
+	mutant(&Mutant{Name: "c13-pooled-buffer-returned-by-bytes", Property: "C13", File: "minify.go",
+		Old: "\tout := buffer.NewWriter(make([]byte, 0, len(v)))\n\tif err := m.Minify(mediatype, out, buffer.NewReader(in)); err != nil {", New: "\tout := bytesPool.Get().(*buffer.Writer)\n\tdefer bytesPool.Put(out)\n\tout.Reset()\n\tif err := m.Minify(mediatype, out, buffer.NewReader(in)); err != nil {",
+		More: [][2]string{{"// Bytes minifies an array of bytes (safe for concurrent use).", "var bytesPool = sync.Pool{New: func() interface{} { return buffer.NewWriter(make([]byte, 0, 1024)) }}\n\n// Bytes minifies an array of bytes (safe for concurrent use)."}},
+		Rule: "R13.6", Construct: "pooled object does not escape"})
+	mutant(&Mutant{Name: "c06-scratch-buffer-kept-in-the-minifier", Property: "C06", File: "xml/xml.go",
+		Old: "\tattrByteBuffer := make([]byte, 0, 64)\n", New: "\tif o.scratch == nil {\n\t\to.scratch = make([]byte, 0, 64)\n\t}\n\tattrByteBuffer := o.scratch\n",
+		More: [][2]string{{"\tKeepWhitespace bool\n}", "\tKeepWhitespace bool\n\tscratch        []byte\n}"}},
+		Rule: "R06.11", Construct: "stores to Minifier fields in xml."})
+	mutant(&Mutant{Name: "c09-nullish-alternate-unwrapped-into-or", Property: "C09", File: "js/util.go",
+		Old: "&& (exprPrec(expr.Y) < js.OpAssign || binaryRightPrecMap[js.OrToken] <= exprPrec(expr.Y)) {", New: "&& exprPrec(expr.Y) != js.OpAssign {",
+		Rule: "R09.29", Construct: "expr.Y goes unwrapped into js.OrToken"})
 }
